@@ -9,7 +9,11 @@ from .module import SourceModule, ImportedModule
 
 try:
     import importlib.machinery
-    SUFFIXES = importlib.machinery.all_suffixes()
+    # in the order the import system probes a directory: an extension module
+    # wins over a source file of the same name
+    SUFFIXES = (importlib.machinery.EXTENSION_SUFFIXES
+                + importlib.machinery.SOURCE_SUFFIXES
+                + importlib.machinery.BYTECODE_SUFFIXES)
 except:
     import imp  # type: ignore[import-not-found]
     SUFFIXES = [s for s, _, _ in imp.get_suffixes()]
